@@ -64,7 +64,11 @@ FIXED = [
  ("fix: a response whose body fails while it is being stored is forwarded with the bytes that did arrive", ["C05"], "on a miss whose body stream failed part-way the client received zero bytes and the error instead of the bytes the origin had delivered (C05 monitor failed-body-prefix-lost)"),
  ("fix: background revalidation is bounded by the configured timeout, not by the caller's context", ["C20"], "the background request inherited the caller's context: cancelled with it right after the stale response was returned, never sent when it was cancelled beforehand (C20 grid, caller contexts)"),
  ("fix: of several stored responses that match a request the most recent one is used", ["C09"], "after the origin changed its Vary field an old stale response shadowed a newer fresh matching one and the origin was contacted (C09 variants, vary-changed scene)"),
- ("fix: entries and their index change in one step", ["C16"], "a 304 that had passed its check overwrote a newer representation stored before its write; the orphaned entry of a response whose Vary changed was freshened by a late 304 and came back, also after an invalidation (C16 Mode S, reload pairs)"),
+ ("fix: entries and their index change in one step", ["C16", "C19"], "a 304 that had passed its check overwrote a newer representation stored before its write; the orphaned entry of a response whose Vary changed was freshened by a late 304 and came back, also after an invalidation (C16 Mode S, reload pairs)"),
+ ("fix: a URL with an empty query is not the URL without a query", ["C03"], "'http://h/x?' and 'http://h/x' shared a key: a GET for one was answered with the response stored for the other (C03 grid, forced-query forms; the classifier now calls such pairs distinct)"),
+ ("fix: fscache.Set works on its own copy of the value", ["C14"], "Set returned on its timeout while the abandoned write went on reading the caller's buffer: a caller that reused the buffer got bytes stored that it never passed to Set (C14 timeout-isolation)"),
+ ("fix: list members that differ in their parameters are different members", ["C04"], "'application/json;version=1, application/json;version=2' selected the variant of 'application/json;version=1'; 'x-gzip-ng' selected the variant of 'gzip-ng' (C04 histories with such values)"),
+ ("fix: a response received on a validation is filed under the client's request fields", ["C19"], "with 'Vary: If-None-Match' every validation filed its reply under the validator the cache had added: one more key per request, without bound (C19 policy vary-inm)"),
 ]
 log = subprocess.run(["git", "-C", "/repo", "log", "--format=%h %s"], capture_output=True, text=True).stdout.splitlines()
 kf_path = os.path.join(ROOT, "known_findings.json")
